@@ -9,15 +9,15 @@ import (
 
 // Term is one leadership term of one election object.
 type Term struct {
-	Obj        *elObj
-	Inst, Gen  int
-	N          int
-	Start, End time.Duration // End -1 = still claimed at end of run
+	Obj          *elObj
+	Inst, Gen    int
+	N            int
+	Start, End   time.Duration // End -1 = still claimed at end of run
 	SStart, SEnd uint64
-	Token      string
-	StartStack string
-	EndStack   string
-	Rise, Fall *ClaimEvt
+	Token        string
+	StartStack   string
+	EndStack     string
+	Rise, Fall   *ClaimEvt
 }
 
 func (d *Driver) terms() []*Term {
@@ -79,9 +79,10 @@ func callerSig(c string) string {
 
 // ---- hooks called during the run ----
 
-func (d *Driver) afterStep()                                {}
-func (d *Driver) checkAtApply(op *Op)                       {}
-func (d *Driver) onClaimEdge(o *elObj, ev *ClaimEvt)        {}
+func (d *Driver) afterStep()                         {}
+func (d *Driver) checkAtApply(op *Op)                {}
+func (d *Driver) onClaimEdge(o *elObj, ev *ClaimEvt) {}
+
 // checkTransition: the recorded state transitions of one election object form a chain - each
 // from-state equals the previous to-state, or CANDIDATE right after Start (Start moves the
 // state to CANDIDATE without recording a transition). Called from the metrics observer, i.e.
@@ -103,7 +104,7 @@ func (d *Driver) checkTransition(o *elObj, from, to string) {
 		d.h.violate("C18", fmt.Sprintf("transition-chain-broken/%s->%s/after:%s", from, to, want), fmt.Sprintf("i%d.%d recorded transition %s -> %s but its previous to-state was %s", o.in.idx, o.gen, from, to, want), d.now(), d.step)
 	}
 }
-func (d *Driver) finalChecks()                              {}
+func (d *Driver) finalChecks() {}
 
 // ---- post-run judgement ----
 
